@@ -489,6 +489,17 @@ func (f *Footer) childrenChanged(ss *segmentStack) bool {
 	return false
 }
 
+// fileRef returns the FileRef of the first persisted segment found in
+// the footer or, when it has none, amongst its child footers, or nil.
+func (f *Footer) fileRef() *FileRef {
+	for _, sloc := range f.SegmentLocs {
+		if sloc.mref != nil && sloc.mref.fref != nil {
+			return sloc.mref.fref
+		}
+	}
+	return f.childFileRef()
+}
+
 // childFileRef returns the FileRef of the first persisted segment
 // found amongst the child footers, recursively, or nil when none of
 // them has a persisted segment.
